@@ -6,7 +6,7 @@ package main
 //
 //   case : tr=<scheme> sc=<tok,…> dl=<ms> n=<N>            (one scripted reaction, then N valid exchanges)
 //          tr=<tcp+pipeline|tls+pipeline> wstall=1 sc=<tok,…> n=<N>   (see c01upWstall)
-//   out  : next=<ok|fail> first=<resp|err|nil|hang> mem=<ok|big> lost=<k> ## detail
+//   out  : next=<ok|fail> first=<resp|err|nil|hang> mem=<ok|big> lost=<k> an=<answer records of the reply|-> ## detail
 //
 //   script tokens
 //     stream transports (tcp, tls, tcp+pipeline, tls+pipeline; quic: the query's stream)
@@ -156,6 +156,11 @@ type c01upSrv struct {
 
 func (s *c01upSrv) finish() { s.once.Do(func() { close(s.done) }) }
 
+// the script is the reaction to the query of the first exchange (recognised by its name), once
+func (s *c01upSrv) isFirst(q []byte, took *atomic.Bool) bool {
+	return bytes.Contains(q, append(c01upWireName(c01upFirstName), 0)) && took.CompareAndSwap(false, true)
+}
+
 func (s *c01upSrv) onClose(f func()) {
 	s.mu.Lock()
 	s.closers = append(s.closers, f)
@@ -218,7 +223,7 @@ func (s *c01upSrv) serveStream(raw, c net.Conn, script []string, took *atomic.Bo
 		if err != nil {
 			return
 		}
-		if took.CompareAndSwap(false, true) {
+		if s.isFirst(q, took) {
 			end := s.streamScript(script, raw, c)
 			if main {
 				s.finish()
@@ -294,7 +299,7 @@ func (s *c01upSrv) startUDP() {
 				return
 			}
 			q := append([]byte(nil), buf[:n]...)
-			if s.took.CompareAndSwap(false, true) {
+			if s.isFirst(q, &s.took) {
 				for _, t := range s.script {
 					switch {
 					case t == "":
@@ -401,7 +406,7 @@ func (s *c01upSrv) serveH1(raw net.Conn) {
 			return
 		}
 		q := c01upDNSParam(fs[1])
-		if s.took.CompareAndSwap(false, true) {
+		if s.isFirst(q, &s.took) {
 			end := s.h1Script(raw)
 			s.finish()
 			switch end {
@@ -583,7 +588,7 @@ func (s *c01upSrv) serveH2(raw net.Conn, c *tls.Conn) {
 			}
 		}
 		q := c01upDNSParam(path)
-		if s.took.CompareAndSwap(false, true) {
+		if s.isFirst(q, &s.took) {
 			go func() {
 				s.h2Script(id, raw, c, &wmu, fr, writeHead, writeData)
 				s.finish()
@@ -662,7 +667,7 @@ func (s *c01upSrv) h3Handler() http.Handler {
 			w.WriteHeader(400)
 			return
 		}
-		if s.took.CompareAndSwap(false, true) {
+		if s.isFirst(q, &s.took) {
 			defer s.finish()
 			h := &c01upHTTP{st: 200, ct: 1}
 			head := func() {
@@ -760,7 +765,7 @@ func (s *c01upSrv) serveQStream(c quic.Connection, st quic.Stream) {
 	if err != nil {
 		return
 	}
-	if s.took.CompareAndSwap(false, true) {
+	if s.isFirst(q, &s.took) {
 		defer s.finish()
 		for _, t := range s.script {
 			switch {
@@ -900,6 +905,7 @@ func c01upExchange(up upstream.Upstream, q []byte, name string, dl time.Duration
 		if c01upRightAnswer(r, binary.BigEndian.Uint16(q), name) {
 			d = "right"
 		}
+		d += fmt.Sprintf("/%d", len(r.Answers))
 		dnsmsg.ReleaseMsg(r)
 		ch <- res{"resp", d}
 	}()
@@ -909,6 +915,14 @@ func c01upExchange(up upstream.Upstream, q []byte, name string, dl time.Duration
 	case <-time.After(dl + 3*time.Second):
 		return "hang", "-"
 	}
+}
+
+// number of answer records of the returned reply ("-" if none was returned)
+func c01upAn(first, detail string) string {
+	if i := strings.IndexByte(detail, '/'); first == "resp" && i >= 0 {
+		return detail[i+1:]
+	}
+	return "-"
 }
 
 var c01upSeq atomic.Uint32
@@ -923,7 +937,7 @@ func c01upProbes(up upstream.Upstream, n int) (bool, int, string) {
 		name := fmt.Sprintf("n%d.p%d.up.test.", k, i)
 		id := uint16(0x1000 + (k*37)%0xE000)
 		a, d := c01upExchange(up, c01upQuery(id, name), name, c01upProbeDl)
-		if a == "resp" && d == "right" {
+		if a == "resp" && strings.HasPrefix(d, "right/") {
 			run++
 		} else {
 			run = 0
@@ -950,7 +964,20 @@ func c01upSplit(sc string) []string {
 	return strings.Split(sc, ",")
 }
 
+// Under load the first exchange's (short) deadline can expire before its query is even sent (connection set-up,
+// handshake). Then the scripted reaction never happened: the case is carried out again with a longer deadline.
 func c01upRun(cs string) string {
+	res, arrived := c01upRunOnce(cs, 1)
+	for k := 0; !arrived && k < 2; k++ {
+		res, arrived = c01upRunOnce(cs, 8)
+	}
+	if !arrived && !strings.HasPrefix(res, "setup-failed") && !strings.HasPrefix(res, "bad-case") {
+		return "setup-failed ## the first query never reached the server: " + res
+	}
+	return res
+}
+
+func c01upRunOnce(cs string, dlFactor int) (string, bool) {
 	m := kv(cs)
 	tr := m["tr"]
 	script := c01upSplit(m["sc"])
@@ -959,20 +986,23 @@ func c01upRun(cs string) string {
 		n = 2
 	}
 	if m["wstall"] == "1" {
-		return c01upWstall(tr, script, n)
+		return c01upWstall(tr, script, n), true
 	}
 	dl := time.Duration(atoi(m["dl"])) * time.Millisecond
 	if dl <= 0 {
 		dl = 2 * time.Second
 	}
+	if dlFactor > 1 && dl < 1500*time.Millisecond {
+		dl *= time.Duration(dlFactor)
+	}
 	srv, err := c01upStart(tr, script)
 	if err != nil {
-		return "setup-failed ## " + err.Error()
+		return "setup-failed ## " + err.Error(), true
 	}
 	defer srv.close()
 	up, err := upstream.NewUpstream(srv.url, c01upOpt(tr))
 	if err != nil {
-		return "setup-failed ## newupstream"
+		return "setup-failed ## newupstream", true
 	}
 	defer up.Close()
 	mem0 := c01upTotalAlloc()
@@ -980,7 +1010,14 @@ func c01upRun(cs string) string {
 	first, fd := c01upExchange(up, c01upQuery(0, c01upFirstName), c01upFirstName, dl)
 	select {
 	case <-srv.done:
-	case <-time.After(3 * time.Second):
+	case <-time.After(1500 * time.Millisecond):
+		if !srv.took.Load() {
+			return "first-query-lost", false
+		}
+		select {
+		case <-srv.done:
+		case <-time.After(2 * time.Second):
+		}
 	}
 	if tr == "http" {
 		// net/http closes an idle HTTP/1.1 connection on which unsolicited octets arrive; give it the time to notice
@@ -996,7 +1033,7 @@ func c01upRun(cs string) string {
 	if ok {
 		next = "ok"
 	}
-	return fmt.Sprintf("next=%s first=%s mem=%s lost=%d ## first=%s probes=%s alloc=%dk exp=%s el=%dms", next, first, mem, lost, fd, det, grown>>10, c01upExpect(tr, script), time.Since(t0).Milliseconds())
+	return fmt.Sprintf("next=%s first=%s mem=%s lost=%d an=%s ## first=%s probes=%s alloc=%dk exp=%s el=%dms", next, first, mem, lost, c01upAn(first, fd), fd, det, grown>>10, c01upExpect(tr, script), time.Since(t0).Milliseconds()), true
 }
 
 // ---- what the script amounts to at the framing level (also used by the generator to pick deadlines)
@@ -1144,5 +1181,5 @@ func c01upWstall(tr string, script []string, n int) string {
 	if ok {
 		next = "ok"
 	}
-	return fmt.Sprintf("next=%s first=%s mem=%s lost=%d ## first=%s second=%s:%s probes=%s alloc=%dk", next, a.a, mem, lost, a.b, b.a, b.b, det, grown>>10)
+	return fmt.Sprintf("next=%s first=%s mem=%s lost=%d an=%s ## first=%s second=%s:%s probes=%s alloc=%dk", next, a.a, mem, lost, c01upAn(a.a, a.b), a.b, b.a, b.b, det, grown>>10)
 }
